@@ -209,13 +209,13 @@ void h_tojson_key(void) {
   vstr r = tojson_key(sep, indent, pad, longest, key);
   __CPROVER_assert(0, "CANARY returns");
   size_t p = 0;
-  while (p < r.len && (r.b[p] == ',' || r.b[p] == ' ' || r.b[p] == '\n')) p++;
+  while (p < r.len && (r.b[p] == ',' || r.b[p] == ' ' || r.b[p] == '\n' || r.b[p] == '\t' || r.b[p] == '\r')) p++;
   __CPROVER_assert(p < r.len && r.b[p] == '"', "O_tojson: an object key is preceded by separator / white space only and starts with a quote");
   size_t q = (p < r.len) ? (size_t)tj_string_at(&r, p, &key) : 0;
   __CPROVER_assert(q != 0, "O_tojson: an object key is written as one JSON string token whose unescaped content is the key");
   if (q != 0) {
     __CPROVER_assert(q < r.len && r.b[q] == ':', "O_tojson: the key is followed by a colon");
-    for (size_t i = q + 1; i < r.len; i++) __CPROVER_assert(r.b[i] == ' ', "O_tojson: only padding follows the colon");
+    for (size_t i = q + 1; i < r.len; i++) __CPROVER_assert(r.b[i] == ' ' || r.b[i] == '\n' || r.b[i] == '\t' || r.b[i] == '\r', "O_tojson: only white space follows the colon");
   }
 }
 /* jsonUnescape on arbitrary input (escape at the very end, unknown escapes) */
